@@ -63,7 +63,7 @@ PROPS = {
         "trusted_base": ["modelled: PeerState transitions, Peers add/remove/get_peers_which_*, SendLastStateProcess, get_last_state(_proof), refresh_all_peers, update_prove_state_to_child"],
     },
     "C12": {
-        "ops": [("sys", "RunSys", {"quick": 120, "thorough": 2000}), ("c01", "RunC01", {"quick": 120, "thorough": 1200})],
+        "ops": [("sys", "RunSys", {"quick": 200, "thorough": 2000}), ("c01", "RunC01", {"quick": 120, "thorough": 1200})],
         "rule": "op c01 part D: fork switches onto branches whose total difficulty is impossible under the per-epoch bound although both end points agree "
                 "(only the total-difficulty range check can refuse to store such a tip), part C: a real PoW engine; "
                 "the event histories of C11 (incl. forged-child announcements of the header a peer has proven, competing chains, restarts) compared step by "
